@@ -6,6 +6,7 @@ package creator
 
 //@ func Creator.Create(ctx, key, value, revision) (err)
 //@   assumed
+//@   ensures [unknown-outcome-is-returned] commits != old(commits) && err_is(last_err, storage.ErrUncertainResult) ==> err == last_err && !err_is(last_err, storage.ErrCASFailed) && last_err != nil
 //@   requires [no-open-batch] !batch_open
 //@   ensures [no-ttl] last_ttl == 0
 //@   modifies ghost.last_ttl ghost.bw_n ghost.bw_kind ghost.bw_key ghost.bw_val ghost.bw_old ghost.bw_ttl ghost.commits ghost.last_batch ghost.last_err ghost.batch_open ghost.floor ghost.floor_set
@@ -13,6 +14,7 @@ package creator
 
 //@ func Creator.CreateWithTTL(ctx, key, value, revision, ttl) (err)
 //@   assumed
+//@   ensures [unknown-outcome-is-returned] commits != old(commits) && err_is(last_err, storage.ErrUncertainResult) ==> err == last_err && !err_is(last_err, storage.ErrCASFailed) && last_err != nil
 //@   requires [no-open-batch] !batch_open
 //@   ensures [ttl] last_ttl == ttl
 //@   modifies ghost.last_ttl ghost.bw_n ghost.bw_kind ghost.bw_key ghost.bw_val ghost.bw_old ghost.bw_ttl ghost.commits ghost.last_batch ghost.last_err ghost.batch_open ghost.floor ghost.floor_set
@@ -31,6 +33,7 @@ package creator
 //@   requires wf_creator(l) && !batch_open
 //@   modifies ghost.bw_n ghost.bw_kind ghost.bw_key ghost.bw_val ghost.bw_old ghost.bw_ttl ghost.commits ghost.last_batch ghost.last_err ghost.batch_open ghost.floor ghost.floor_set
 //@   ensures [one-batch] commits == old(commits)+1 && last_err == err && bw_n[last_batch] == 2 && !batch_open
+//@   ensures [unknown-outcome-is-no-failed-condition] err_is(err, storage.ErrUncertainResult) ==> !err_is(err, storage.ErrCASFailed) && err != nil
 //@   ensures [conflicts-are-objects] typeis(err, "*storage.Conflict") ==> asptr(err, "*storage.Conflict") != nil
 //@   ensures [put-if-absent-index] bw_kind[last_batch][0] == 1 && bw_key[last_batch][0] == revisionKey && bw_val[last_batch][0] == revision && bw_ttl[last_batch][0] == lease
 //@   ensures [put-object] bw_kind[last_batch][1] == 3 && bw_key[last_batch][1] == objectKey && bw_val[last_batch][1] == value && bw_ttl[last_batch][1] == lease
@@ -41,17 +44,19 @@ package creator
 //@   requires wf_creator(l) && !batch_open
 //@   modifies ghost.bw_n ghost.bw_kind ghost.bw_key ghost.bw_val ghost.bw_old ghost.bw_ttl ghost.commits ghost.last_batch ghost.last_err ghost.batch_open ghost.floor ghost.floor_set
 //@   ensures [one-batch] commits == old(commits)+1 && last_err == err && bw_n[last_batch] == 2 && !batch_open
+//@   ensures [unknown-outcome-is-no-failed-condition] err_is(err, storage.ErrUncertainResult) ==> !err_is(err, storage.ErrCASFailed) && err != nil
 //@   ensures [cas-index] bw_kind[last_batch][0] == 2 && bw_key[last_batch][0] == revisionKey && bw_val[last_batch][0] == newRevision && bw_old[last_batch][0] == oldRevision && bw_ttl[last_batch][0] == lease
 //@   ensures [put-object] bw_kind[last_batch][1] == 3 && bw_key[last_batch][1] == objectKey && bw_val[last_batch][1] == value && bw_ttl[last_batch][1] == lease
 
 // CreateWithTTL: a first put-if-absent batch; on a failed condition a second batch only if the
 // index holds a deletion older than this revision (CAS from exactly those bytes) or has vanished
 //@ func (*naiveCreator).CreateWithTTL(ctx, key, val, revision, ttl) (err)
-//@   props C01 C02
+//@   props C01 C02 C09
 //@   requires wf_creator(l) && !batch_open
 //@   modifies ghost.bw_n ghost.bw_kind ghost.bw_key ghost.bw_val ghost.bw_old ghost.bw_ttl ghost.commits ghost.last_batch ghost.last_err ghost.batch_open ghost.floor ghost.floor_set
 //@   ensures [one-or-two-batches] commits == old(commits)+1 || commits == old(commits)+2
 //@   ensures [closed] !batch_open
 //@   ensures [success-is-a-commit] err == nil ==> last_err == nil
+//@   ensures [unknown-outcome-is-returned] commits != old(commits) && err_is(last_err, storage.ErrUncertainResult) ==> err == last_err && !err_is(last_err, storage.ErrCASFailed) && last_err != nil
 //@   ensures [last-batch-writes-this-revision] bw_n[last_batch] == 2 && is_enc(bw_key[last_batch][0], key, uint64(0)) && len(bw_val[last_batch][0]) == 8 && be64_of(bw_val[last_batch][0]) == revision && is_enc(bw_key[last_batch][1], key, revision) && bw_val[last_batch][1] == val
 //@   ensures [overwrite-only-an-older-deletion] commits == old(commits)+2 && bw_kind[last_batch][0] == 2 ==> len(bw_old[last_batch][0]) == 9 && be64_of(bw_old[last_batch][0]) < revision
